@@ -106,9 +106,13 @@ def run(ctx):
     allprob = []
     nontrivial = 0
     for mi in range(nmodels):
-        m = lc.gen_model(rng, max_order=ctx.pick(5, 6), max_vocab=ctx.pick(8, 30))
+        big = (mi % 8 == 3)
+        m = lc.gen_model(rng, max_order=ctx.pick(5, 6), max_vocab=ctx.pick(8, 30), big=big)
         sess = lc.Session(ctx, m, "m%d" % mi)
-        if len(m.vocab) <= 5 and m.order <= 3:
+        if big:
+            qs = lc.ngram_queries(m) + lc.gen_queries(rng, m, 40)
+            stats["big_models"] = stats.get("big_models", 0) + 1
+        elif len(m.vocab) <= 5 and m.order <= 3:
             qs = lc.exhaustive_queries(m, m.order)
             stats["exhaustive_models"] = stats.get("exhaustive_models", 0) + 1
         else:
